@@ -1220,3 +1220,29 @@ func c12schemaDecodedPerNode(c *an.Ctx) {
 		}
 	}
 }
+
+func init() {
+	old := All["C12"].Run
+	All["C12"].Run = func(c *an.Ctx) {
+		old(c)
+		c12passThroughRescans(c)
+	}
+	All["C12"].Rules += " R11"
+	addLevel("C12", "the delimited scanner, passing an unknown escape through, puts the character after the backslash back to be scanned again (it may be the second backslash of `\\\\\\\\` in front of the closing delimiter, or start the next escape).")
+}
+
+// c12passThroughRescans — C12.R11.  A regex is printed with `/` escaped as `\/` and other
+// backslash sequences left alone.  When ScanDelimited meets `\x` with x not in its escape table
+// and pass-through on, it writes the backslash and RE-SCANS x: x may itself be a backslash that
+// escapes the delimiter that follows.  Copying the pair through instead makes `\\/` end (or
+// not end) the regex at the wrong place, and the rest of the condition is lost on the store.
+func c12passThroughRescans(c *an.Ctx) {
+	r := c.Rule("C12.R11", "K-ORDER", qlPkg+":ScanDelimited — an unknown escape that is passed through puts its second character back (UnreadRune) before scanning goes on")
+	f := fn(r, qlPkg+":ScanDelimited")
+	if f == nil {
+		return
+	}
+	un := f.Find(an.MCallNamed("UnreadRune", `.*`))
+	edges := f.GuardEdges(an.AtomLike(`^p4$`, true))
+	f.AfterEdgesMustPass(r, edges, un, "escapesPassThru ⇒ UnreadRune of the character after the backslash")
+}
